@@ -1,4 +1,4 @@
-HOOK_COMMITS = ["3b27975"]
+HOOK_COMMITS = ["3b27975", "5a44400"]
 
 NOT_APPLICABLE = {}
 
@@ -94,5 +94,15 @@ TEXT = {
   "technique": "corruption as a fault at the disk and wire seams of the simulator: stored values / packfiles / encoded streams are bit-flipped, truncated, given inflated counts or wrong labels and read through every reader; replies of the simulated remote are truncated or bit-flipped during real fetch/pull/push; panic, hang and allocation are observed per call",
   "level_text": "Seeded, structure-aware corruption (not coverage-guided fuzzing): one corruption per case of one stored object of a real generated repository (raw or inside the s2 frame), of a real packfile fed to ObjectReceiver.Receive, or of one of 9 encoded stream kinds; plus the multi-node run with corrupted replies. Oracle: returns, no panic in any goroutine (goroutine panics kill the worker and are attributed to the seed), allocation <= 64 x input + 16 MiB, stored objects after a rejected packfile are keyed by their hash, decodable and pass I1-I3, success of a command implies the C09 postcondition.",
   "level_note": _T + " Open finding C17-s2-block-length (s2.Decode allocates the announced block length) is classified separately and printed as KNOWN-FINDING.",
+ },
+ "C03": {
+  "technique": "monitor + own profile in the deterministic simulator: an independent structural checker (block sizes, key order, recomputed block indices, table index, hash keys) runs on every table produced by ingest (seeded worker schedule), merge commit, wire receipt and doctor resolve, together with the repository's own doctor.Diagnose",
+  "level_text": "Seeded exploration at boundary sizes (0,1,2,254,255,256,509,510,511,765,766 rows; keyed/keyless; all-empty row) x four producers; the same checker is also evaluated as a monitor in the C01, C02, C05, C06, C07, C09, C13 and C16 runs.",
+  "level_note": _T,
+ },
+ "C06": {
+  "technique": "write monitor at the simulated object store (key = hash of canonical bytes, decode, re-encode = stored bytes, same key => same bytes) active in every profile, plus an own profile driving field extremes through the in-process CLI with simulated clocks and zones, and the packfile length header through hook H2",
+  "level_text": "Seeded exploration of message/name/email lengths 0..70000, node clocks up to year 2262 (limit of the synctest clock) and library-level times up to year 9999 and before year 1, zone offsets incl. half hours and seconds, rows crossing 64 KiB, 1..256 rows; packfile header round trip over all varint boundaries, 32-bit and sampled 64-bit lengths (sampled, not every 32-bit length). Oracle: error at write time with the branch untouched, or read back equal.",
+  "level_note": _T + " Exhaustive enumeration of all 32-bit lengths is model checking and is not attempted.",
  },
 }
